@@ -646,6 +646,29 @@ theorem moveBody_ok (cfg : Config) (s1 : FState α) (cmd : Cmd α) (dE pE : α) 
             cases c3.getLast? <;> rfl
           · simp only [hq, Bool.false_eq_true, if_false, pure_eq_ok]
 
+/-- the inserted `G92 E` does not touch the filter state -/
+theorem nonMoveBody_fst (s1 : FState α) (cmd : Cmd α) (dE pE : α) :
+    (T.nonMoveBody s1 cmd dE pE).1 = (T.processNonMove s1 cmd dE).1 := by
+  unfold T.nonMoveBody
+  cases s1.lastRetraction with
+  | none => rfl
+  | some lr => simp only; split <;> rfl
+
+theorem nonMoveBody_ok (s1 : FState α) (cmd : Cmd α) (dE pE : α) (hs1 : WF s1) :
+    s1.nonMoveBody cmd dE (some pE) = .ok (T.nonMoveBody s1 cmd dE pE) := by
+  unfold T.nonMoveBody FState.nonMoveBody
+  simp only [processNonMove_ok s1 cmd dE hs1, ok_bind]
+  have hw := processNonMove_WF s1 cmd dE hs1
+  generalize T.processNonMove s1 cmd dE = r at *
+  obtain ⟨s2, c2⟩ := r
+  cases s1.lastRetraction with
+  | none => simp only [pure_eq_ok]
+  | some lr =>
+    simp only
+    split
+    · simp only [n2lAbs_ok hw.pos.2.2.2, ok_bind, pure_eq_ok]
+    · simp only [pure_eq_ok]
+
 theorem processLinearMoves_ok (cfg : Config) (s : FState α) (cmd : Cmd α) (ep fr fz : Option α)
     (xy : List (Option α × Option α)) (h : WF s) :
     s.processLinearMoves cfg cmd ep fr fz xy = .ok (T.processLinearMoves cfg s cmd ep fr fz xy) := by
@@ -656,7 +679,7 @@ theorem processLinearMoves_ok (cfg : Config) (s : FState α) (cmd : Cmd α) (ep 
   · simp only [hm, Bool.not_true, Bool.false_eq_true, if_false, moveBody_ok cfg _ cmd _ _ _ xy hs1,
       ok_bind, T.toResult]
     split <;> simp_all
-  · simp only [hm, Bool.not_false, if_true, processNonMove_ok _ cmd _ hs1, ok_bind, T.toResult]
+  · simp only [hm, Bool.not_false, if_true, nonMoveBody_ok _ cmd _ _ hs1, ok_bind, T.toResult]
     split <;> simp_all
 
 end ERP
@@ -705,7 +728,7 @@ theorem processLinearMoves_WF (cfg : Config) (s : FState α) (cmd : Cmd α) (ep 
   simp only [toResult_fst]
   have hs1 := applyEZF_WF s ep fr fz h
   split
-  · exact processNonMove_WF _ cmd _ hs1
+  · rw [nonMoveBody_fst]; exact processNonMove_WF _ cmd _ hs1
   · exact moveBody_WF cfg _ cmd _ _ _ xy hs1 h.pos
 
 /-- shape of results: `ignore` or a non-empty list -/
